@@ -95,6 +95,13 @@ func genSched(r *driver.Rand, p *driver.Plan) {
 	}
 	p.Budget = driver.Pick(r, 4000, 4000, 200, 60)
 	p.PreemptN = driver.Pick(r, 0, 0, 0, 2, 4, 8)
+	// the stages package fork re-exports, through those entry points
+	switch p.Stage {
+	case "Take", "TakeWhile", "Seq", "ToSeq", "Join", "Throttling", "Emit", "Unfold", "StdErr":
+		if r.Chance(1, 6) {
+			p.SetX("via_fork", 1)
+		}
+	}
 }
 
 func genEnvPaces(r *driver.Rand, p *driver.Plan, producers, consumers int) {
